@@ -92,6 +92,25 @@ func gen(tier string, seed int64) []mon.Case {
 			}
 		}
 	}
+	// history on one link: silence after a write (small socket timeouts), last words before the peer leaves
+	for rep := 0; rep < ureps; rep++ {
+		for _, t := range []string{"system", "system-ssh", "standard-shell", "standard-netconf", "telnet"} {
+			for i, f := range []int{15, 30} {
+				to := []int{300, 500, 800}[(rep+i)%3]
+				if t == "system-ssh" {
+					to = 1000 // ssh takes whole seconds (ConnectTimeout/ServerAliveInterval)
+				}
+				add(Desc{Kind: "silence", T: t, ReadSize: []int{64, 8192}[i], Size: 640, SockTOms: to, Factor10: f})
+			}
+		}
+		for _, t := range []string{"system", "system-netconf", "system-ssh", "standard-shell", "standard-netconf", "telnet"} {
+			for _, rs := range []int{81, 8192} {
+				for _, tail := range []int{rs - 20, 3*rs + 7} {
+					add(Desc{Kind: "lastwords", T: t, ReadSize: rs, Size: tail, PauseMs: 500 + 250*((rep+rs)%3)})
+				}
+			}
+		}
+	}
 	// end-to-end differential
 	ecli, enc := 4, 3
 	if tier == "thorough" {
@@ -134,7 +153,8 @@ func init() {
 			"payload sizes {1, rs-1, rs, rs+1, 4095, 4096, 4097, 65537 (every ordered byte pair), 1 MiB} in both directions, PRNG write chunking/pauses in " +
 			"duplex, lockstep and up-then-down schedules; every transfer ends with Close(true) against the blocked reader. Unblock cases: Close(true) and peer-gone " +
 			"for the same transports plus the system transport with the real ssh client; re-open cycles (3 x Open/transfer/blocked read/Close on ONE Transport object, forced and " +
-			"unforced close; peer must see the end, the child must be gone). Telnet early bursts: the peer sends a burst longer than the read size right after accept (inside the " +
+			"unforced close; peer must see the end, the child must be gone). Silence after write: with socket timeouts of 300-1000 ms the peer stays silent for 1.5x / 3x the timeout after a client write, then sends (twice), reader parked in Read. " +
+			"Last words: the peer writes a tail (smaller / larger than the read size) and ends the session in an orderly way while nobody reads for 0.5-1 s; the whole tail must come out of Read before the error. Telnet early bursts: the peer sends a burst longer than the read size right after accept (inside the " +
 			"negotiation window, with/without option negotiations). End-to-end: generated CLI and NETCONF (1.0/1.1) sessions over the real " +
 			"transports vs the ideal devsim pipe. Non-trivial = payload larger than the read size, or an unblock case, or an end-to-end differential. Distinct = distinct descriptor.",
 		Assumptions: []string{
@@ -142,6 +162,8 @@ func init() {
 			"'after the session is up' = after Transport.Open returned and (system) the stand-in's readiness marker was read; in the plain telnet transfers the negotiation is empty and the peer sends nothing during the negotiation window; in the early-burst variant the burst (no 0xff byte) is part of what reads must return",
 			"with the real ssh client the escape character is disabled (-e none) for raw links; end-to-end sessions never start a line with '~'",
 			"end-to-end generators: every command ends in a byte that occurs nowhere else, no output line prefix matches the prompt pattern (checked by brute force), no CR/tab inside NETCONF payloads, request lines shorter than the tty's canonical-mode limit (4095 bytes)",
+			"device text of the end-to-end CLI sessions never contains 'login:', 'username:' or 'password:' outside the login prompts (a read boundary right after such a word would legitimately look like a prompt to the in-channel login)",
+			"last words: the peer ends the session in an orderly way (socket/channel close after the write, stand-in exits after copying); with the real ssh client the client's own parting message after the peer's bytes is not peer data",
 			"loss is judged only after 20 s without progress while the load canary is healthy; otherwise inconclusive",
 			"data races inside the transport structs are not judged here",
 		},
@@ -156,6 +178,10 @@ func init() {
 				return runUnblock(d)
 			case "cycle":
 				return runCycle(d)
+			case "silence":
+				return runSilence(d)
+			case "lastwords":
+				return runLastWords(d)
 			case "e2e-cli":
 				return runE2ECLI(d)
 			case "e2e-netconf":
